@@ -95,6 +95,8 @@ def wtStep (s : WTState) (toks : List String) : WTState × String :=
       | none => if c.errCount ≥ errGuard then "panic" else "-"
       | some _ => errStr e
     ({ s with r := c, hasReader := false }, body ++ " err " ++ tailS)
+  -- the caller closes the reader it holds: `messageReader.Close` is a no-op
+  | ["rclose"] => (s, "ok")
   | ["closes"] => (s, "closes " ++ showInts s.r.closes)
   | _ => (s, "bad-op")
 
